@@ -5,7 +5,7 @@ cd /verif
 OUT=seeded/RESULTS.md
 echo "| seed | property | quick check on the seeded tree |" > $OUT
 echo "|---|---|---|" >> $OUT
-for d in seeded/C*-*/; do
+for d in /verif/seeded/C*-*/; do
   id=$(basename $d); prop=$(python3 -c "import json;print(json.load(open('$d/meta.json'))['property'])")
   if ! git -C /repo apply --check $d/patch.diff 2>/dev/null; then echo "| $id | $prop | patch no longer applies to HEAD |" >> $OUT; continue; fi
   git -C /repo apply $d/patch.diff
